@@ -113,7 +113,7 @@ mod __verif_kani {
             assert!(find_block_scalar_end(&b, $start, $mi) == Some(want));
         }
     }; }
-    //@ kind=B props=C16 bound=buffer_len=51,start=0,min_indent=2 fn=yaml::simd::x86::find_block_scalar_end stubs=avx2_enabled : every 51-byte buffer from start 0 with min_indent 2: same answer as scalar::find_block_scalar_end_scalar
+    //@ kind=B props=C16 tier=thorough bound=buffer_len=51,start=0,min_indent=2 fn=yaml::simd::x86::find_block_scalar_end stubs=avx2_enabled : every 51-byte buffer from start 0 with min_indent 2: same answer as scalar::find_block_scalar_end_scalar
     c16_block!(c16_find_block_scalar_end_from0, 0, 2);
     //@ kind=B props=C16 tier=thorough bound=buffer_len=51,start=3,min_indent=4 fn=yaml::simd::x86::find_block_scalar_end stubs=avx2_enabled : same from start 3 with min_indent 4
     c16_block!(c16_find_block_scalar_end_from3, 3, 4);
